@@ -5,7 +5,7 @@ import itertools
 
 import numpy as np
 
-from vf import gen, probes
+from vf import gen, plumbing, probes
 from vf.props import c02
 from vf.props.c01 import NEUTRAL
 
@@ -26,7 +26,17 @@ ASSUMPTIONS = ["tolerance max(1e-8, 1e4*eps*max cond(H_setup)); cond > 1e7 not j
                "layouts in which all channels are references (no roving sensor) are outside the quantifier"]
 
 
+PLUMB_CLASSES = ['SSIcov_MS', 'SSIdat_MS']
+PLUMB_FIELDS = ['Fn_poles', 'Xi_poles', 'Phi_poles', 'Lambds', 'Fn', 'Xi', 'Phi', 'order_out']
+REQUIRED_MONITORS = list(REQUIRED_MONITORS) + [f"plumbing:{s_}" for s_ in plumbing.SCENARIOS]
+REQUIRED_STATES = list(REQUIRED_STATES) + [f"plumbing scenario {s_}" for s_ in plumbing.SCENARIOS]
+
+
 def cases(tier, seed):
+    return _cases(tier, seed) + plumbing.cases(len(plumbing.SCENARIOS) * len(PLUMB_CLASSES) * (1 if tier == "quick" else 6), PLUMB_CLASSES)
+
+
+def _cases(tier, seed):
     nA = 160 if tier == "quick" else 3000
     out = [{"cls": "identify", "k": k} for k in range(nA)]
     # B: exhaustive split
@@ -239,6 +249,8 @@ def run_split(ctx, case, rng):
 
 
 def run_case(ctx, case):
+    if case["cls"] == "plumbing":
+        return plumbing.run_case(ctx, case, gen.rng_of(case), PLUMB_FIELDS)
     rng = gen.rng_of(case)
     if case["cls"] == "identify":
         run_identify(ctx, rng)
